@@ -308,6 +308,9 @@ Proof.
     intros y [<-|I]; auto.
 Qed.
 
+Lemma draw_spec_len p k tape xs t : draw p k tape = Some (xs, t) -> length xs = k /\ tape = xs ++ t.
+Proof. intros H. destruct (draw_spec p k tape xs t H) as [A [B _]]. auto. Qed.
+
 Lemma cnt_add_keys {A} (eqb : A -> A -> bool) (Heq : forall a b, eqb a b = true -> a = b) :
   forall c x a n, In (a, n) (cnt_add eqb c x) -> a = x \/ exists n', In (a, n') c.
 Proof.
@@ -418,6 +421,12 @@ Proof.
       * rewrite !app_length, B. lia.
 Qed.
 End Keys.
+
+Lemma jointp_unit_nonneg probs : forall c, Forall nonneg probs -> 0 <= jointp probs c.
+Proof.
+  induction probs as [|v r IH]; intros [|j c] N; simpl; try lra.
+  inversion N as [|? ? Nv Nr]; subst. pose proof (nth_nonneg v j Nv). pose proof (IH c Nr). nra.
+Qed.
 
 (* ---------- no entry of the result has probability zero ---------- *)
 Lemma jointp_pos_idx probs : Forall nonneg probs ->
